@@ -386,7 +386,7 @@ class Models:
         found = []
         for s2, _ in outs:
             for e in s2.trace[before:]:
-                if e[0] in ("cap", "stash") and e not in found:
+                if e[0] in ("cap", "stash", "order") and e not in found:
                     found.append(e)
         for e in found:
             fr.st.ev(*e)
@@ -1004,6 +1004,8 @@ class Models:
                 if self.I.spec.token_transparent(f):
                     return [(st, v)]
                 self.token_lost(fr, v, "moved into %s" % f["name"], f["name"], line)
+        if f["name"] in ("fold", "rfold", "try_fold", "try_rfold", "rev"):
+            st.ev("order", f["name"])
         if f["name"] in ("push", "push_back", "insert", "extend", "push_front"):
             for v in vals[1:]:
                 for tag in self.cursor_tags(fr, v):
